@@ -2,12 +2,13 @@
    Level "other": this file holds the parts of the property that are proved over all inputs on
    models of the code (IsProperColouring, GreedyColor, ...); the rest is explored against
    proved reference oracles (see notes/C09.md).  Only property theorems, closed by [exact]. *)
-From Coq Require Import List ZArith Arith Sorted.
-From Mamba Require Import Invariants.Graph Invariants.GraphOfEdges Invariants.ColourModel Invariants.ColourSpec
+From Coq Require Import List ZArith Arith Sorted Lia.
+From Mamba Require Import Invariants.Graph Invariants.CliqueGraphOfEdges Invariants.ColourModel Invariants.ColourSpec
   Invariants.ColourProofs Invariants.ColourGreedy Invariants.DegenProofs
   Invariants.CliqueSpec Invariants.CliqueRef Invariants.CliqueRefProofs Invariants.ColourRef Invariants.ColourRefProofs
   Invariants.ChromPolyModel Invariants.ChromPolyProofs
-  Invariants.CliqueModel Invariants.CliqueLoop Invariants.CliqueBK Invariants.CliqueNumbers.
+  Invariants.CliqueModel Invariants.CliqueLoop Invariants.CliqueBK Invariants.CliqueNumbers
+  Invariants.ColourIndexModel Invariants.ColourIndexProofs Invariants.CliqueIso.
 Import ListNotations.
 Open Scope Z_scope.
 
@@ -92,6 +93,40 @@ Example C09_cliques_nonvacuous :
   clique_number_bk g = Some 3%nat /\ independence_number_bk g = Some 2%nat.
 Proof. vm_compute. repeat split. Qed.
 
+(* ChromaticIndex, partial: what is proved is the mapping between the line graph's vertices and
+   the edge array.  (1) LineGraphDense (three inner loops with early exits, rows of the triangular
+   array) presents exactly [line_graph g]: vertex a is the a-th edge of the exact edge list
+   [edges g] and a, b are adjacent iff the edges share an end.  (2) For every proper k-colouring
+   of that line graph, the assembling loop of ChromaticIndex does not panic and returns one entry
+   per pair in dense-array order: 0 at the non-edges, a colour in 1..k at the edges, different
+   for different edges sharing an end.  MISSING for the full statement: that the colouring
+   ChromaticNumber returns for the line graph is proper with exactly chi(line graph) colours
+   (DSATUR branch and bound, not modelled); explored against [chromatic_index_ref]. *)
+Theorem C09_line_graph_dense : forall g,
+  let '(lower, upper, rows) := line_graph_rows g in
+  lower = map fst (edges g) /\ upper = map snd (edges g) /\ length rows = length (edges g) /\
+  forall b, (b < length (edges g))%nat -> length (nth b rows []) = b /\
+    forall a, (a < b)%nat -> lg_adj rows a b = gadj (line_graph g) a b.
+Proof. exact line_graph_rows_correct. Qed.
+Print Assumptions C09_line_graph_dense.
+
+Theorem C09_chromatic_index_mapping_partial : forall g k colouring, k_colouring (line_graph g) k colouring ->
+  exists ce, chromatic_index_assemble g colouring = Some ce /\ length ce = length (pairs (gn g)) /\
+    forall p i j, nth_error (pairs (gn g)) p = Some (i, j) ->
+      (gadj g i j = false -> nth p ce 0 = 0) /\
+      (gadj g i j = true -> 1 <= nth p ce 0 <= Z.of_nat k /\
+         forall p' i' j', nth_error (pairs (gn g)) p' = Some (i', j') -> gadj g i' j' = true ->
+           (i, j) <> (i', j') -> share_end (i, j) (i', j') -> nth p ce 0 <> nth p' ce 0).
+Proof. exact chromatic_index_assemble_proper. Qed.
+Print Assumptions C09_chromatic_index_mapping_partial.
+
+Example C09_chromatic_index_nonvacuous :
+  let g := of_edges 4 [(0,1); (1,2); (2,0); (2,3)]%nat in
+  edges g = [(0,1); (0,2); (1,2); (2,3)]%nat /\
+  snd (line_graph_rows g) = [[]; [true]; [true; true]; [false; true; true]] /\
+  chromatic_index_assemble g [0; 1; 2; 0] = Some [1; 2; 3; 0; 0; 1].
+Proof. vm_compute. repeat split. Qed.
+
 (* ---- proved reference oracles: the model line of the correspondence for the values whose
    algorithms (Bron-Kerbosch with pivoting, DSATUR branch and bound) are not proved.  Each is an
    exhaustive search proved to return the value of the definition, for every simple graph. *)
@@ -141,6 +176,39 @@ Example C09_ref_nonvacuous :
   map (count_colourings_ref g) [2; 3; 4]%nat = [0; 18; 168]%nat /\
   chromatic_index_ref g = 3%nat.
 Proof. vm_compute. repeat split. Qed.
+
+(* ---- relabelling: the specification values are invariant under isomorphism (p a bijection of
+   the vertices with inverse q that preserves adjacency; [relabel g p] of Graph.v is such an h).
+   Together with the exactness theorems above this is the relabelling clause for CliqueNumber,
+   IndependenceNumber, AllMaximalCliques, Degeneracy; for the DSATUR-based functions it holds on
+   the explored inputs through agreement with the oracles.  Representation invariance is the
+   statement that every representation presents the same abstract graph (C05/C06). *)
+Theorem C09_relabelling_invariance : forall p q h g, wf h -> wf g -> iso p q h g ->
+  (forall w, clique_number h w -> clique_number g w) /\
+  (forall a, independence_number h a -> independence_number g a) /\
+  (forall chi, chromatic_number h chi -> chromatic_number g chi) /\
+  (forall d, is_degeneracy h d -> is_degeneracy g d) /\
+  (forall s, maximal_clique h s -> maximal_clique g (map p s)).
+Proof.
+  intros p q h g Hh Hg Hiso. split; [|split; [|split; [|split]]].
+  - intros w. exact (clique_number_iso p q h g w Hiso).
+  - intros a. exact (independence_number_iso p q h g a Hiso).
+  - intros chi. exact (chromatic_number_iso p q h g chi Hh Hg Hiso).
+  - intros d. exact (degeneracy_iso p q h g d Hiso).
+  - intros s. exact (maximal_clique_iso p q h g s Hiso).
+Qed.
+Print Assumptions C09_relabelling_invariance.
+
+Example C09_relabelling_nonvacuous :
+  let g := of_edges 5 [(0,1); (1,2); (2,3); (3,4); (4,0); (0,2)]%nat in
+  let p := fun u => Nat.modulo (u + 1) 5 in
+  let q := fun u => Nat.modulo (u + 4) 5 in
+  iso p q (relabel g p) g.
+Proof.
+  apply relabel_iso; [apply of_edges_wf| |];
+    intros u Hu; simpl in Hu; do 5 (destruct u as [|u]; [vm_compute; split; [repeat constructor|reflexivity]|]);
+    lia.
+Qed.
 
 (* Non-vacuity: the 5-cycle with a chord, an order on which first-fit needs 3 colours, a proper
    and an improper colouring. *)
